@@ -1,5 +1,6 @@
 ------------------------------ MODULE MC_TestCommand ------------------------------
-(* Scenario families for model checking / generation (TLC only). *)
+(* Scenario families for model checking / generation (TLC only).  The families take a dummy argument so that TLC does
+   not evaluate all of them as constants at start-up (that cost 40 s per run). *)
 EXTENDS TestCommand, Json
 
 Ids == << <<"d1t1", "d1t2", "d1t3">>, <<"d2t1", "d2t2", "d2t3">>, <<"d3t1", "d3t2", "d3t3">> >>
@@ -37,14 +38,14 @@ Plain(docs) == Run(docs, None, <<>>, <<>>, "cli", FALSE)
 C05Kinds == {"pass", "pass3", "pass255", "failout", "failcode", "failcodeexp", "failboth", "sig_noexp", "sig_out",
              "err_pass", "err_empty", "comb_pass", "quiet", "unexpected", "det"}
 CramC05  == {"pass", "pass3", "failout", "failcode", "failcodeexp", "failboth", "quiet", "unexpected"}
-ScenC05 == {Plain(<<Md(MkTests(1, names))>>) : names \in SeqsOf(C05Kinds, 1, 3)}
+ScenC05(u) == {Plain(<<Md(MkTests(1, names))>>) : names \in SeqsOf(C05Kinds, 1, 3)}
            \cup {Plain(<<Cram(MkCram(1, names))>>) : names \in SeqsOf(CramC05, 1, 2)}
 
 \* ---- C14: one slow test case (3 ticks) among three; limits 1 or 6; document limit from front-matter and/or CLI
 SlowTc(id, t, stream) == Tc(id, "exit", 0, 3, None, "stdout", stream, "match", t, FALSE, None)
 C14Tests(p, t) == [x \in 1..3 |-> IF x = p THEN SlowTc(Ids[1][x], t, "stdout") ELSE Kind("pass", Ids[1][x])]
 C14Cram(p)     == [x \in 1..3 |-> IF x = p THEN SlowTc(Ids[1][x], None, "combined") ELSE CramKind("pass", Ids[1][x])]
-ScenC14 == {Run(<<Doc("md", tfm, None, "no", C14Tests(p, t))>>, tcli, <<>>, <<>>, "cli", FALSE) :
+ScenC14(u) == {Run(<<Doc("md", tfm, None, "no", C14Tests(p, t))>>, tcli, <<>>, <<>>, "cli", FALSE) :
                  p \in 1..3, t \in {None, 1, 6}, tfm \in {None, 0, 1, 6}, tcli \in {None, 0, 1, 6}}
            \* the document limit elapses BETWEEN two commands (scrut waits 2 ticks before the second one)
            \cup {Run(<<Doc("md", tfm, None, "no", <<Kind("pass", "d1t1"), [Kind("pass", "d1t2") EXCEPT !.wait = 2],
@@ -61,13 +62,13 @@ C15Doc(p, cfg, exp, others) ==
             THEN SkipperTc(Ids[1][x], CASE cfg = "def" -> 80 [] cfg = "docdef" -> 7 [] cfg = "inline" -> 9 [] cfg = "decoy" -> 80,
                            exp, IF cfg = "inline" THEN 9 ELSE None)
             ELSE Kind(others[x], Ids[1][x])])
-C15Docs == {C15Doc(p, cfg, exp, others) : p \in 0..3, cfg \in {"def", "docdef", "inline", "decoy"},
+C15Docs(u) == {C15Doc(p, cfg, exp, others) : p \in 0..3, cfg \in {"def", "docdef", "inline", "decoy"},
                                           exp \in {None, 3, 80}, others \in [1..3 -> {"pass", "failout", "failcode"}]}
 Second(name) == Md(<<Kind(name, Ids[2][1])>>)
-ScenC15 == {Plain(<<dc>>) : dc \in C15Docs}
-           \cup {Plain(<<dc, Second(n2)>>) : dc \in C15Docs, n2 \in {"pass", "failout"}}
+ScenC15(u) == {Plain(<<dc>>) : dc \in C15Docs(0)}
+           \cup {Plain(<<dc, Second(n2)>>) : dc \in C15Docs(0), n2 \in {"pass", "failout"}}
            \cup {Plain(<<Second(n2), [dc EXCEPT !.tests = [x \in 1..3 |-> [dc.tests[x] EXCEPT !.id = Ids[3][x]]]]>>) :
-                     dc \in C15Docs, n2 \in {"pass", "failout"}}
+                     dc \in C15Docs(0), n2 \in {"pass", "failout"}}
            \cup {Plain(<<Cram([x \in 1..3 |->
                         IF x = p THEN Tc(Ids[1][x], how, 80, 0, None, "stdout", "combined", "match", None, FALSE, None)
                         ELSE CramKind(names[x], Ids[1][x])])>>) :
@@ -75,7 +76,7 @@ ScenC15 == {Plain(<<dc>>) : dc \in C15Docs}
 
 \* Markdown documents run with --cram-compat: the script executor must honour the Markdown-only ways to set the skip code
 Combined(dc) == [dc EXCEPT !.tests = [x \in 1..Len(dc.tests) |-> [dc.tests[x] EXCEPT !.stream = "combined"]]]
-C15Compat == {[Plain(<<Combined(C15Doc(p, cfg, exp, others))>>) EXCEPT !.compat = TRUE] :
+C15Compat(u) == {[Plain(<<Combined(C15Doc(p, cfg, exp, others))>>) EXCEPT !.compat = TRUE] :
                   p \in 0..3, cfg \in {"def", "docdef", "inline", "decoy"}, exp \in {None, 80}, others \in {[x \in 1..3 |-> "pass"], [x \in 1..3 |-> "failout"]}}
 
 \* ---- C20: several documents, shared prepend / append documents, detached, skip, signal, faults, Markdown and Cram
@@ -87,7 +88,7 @@ DocsOf(di) == MdDocsOf(di) \cup CramDocsOf(di)
 \* shared prepend / append documents have the format of the documents they are added to
 Shared(prefix)     == {<<>>, <<Kind("pass", prefix)>>, <<Kind("failout", prefix)>>}
 CramShared(prefix) == {<<>>, <<CramKind("pass", prefix)>>, <<CramKind("failout", prefix)>>}
-ScenC20 == {Run(<<d1>>, None, pre, app, via, FALSE) : d1 \in MdDocsOf(1), pre \in Shared("p1"), app \in Shared("a1"), via \in {"cli", "fm"}}
+ScenC20(u) == {Run(<<d1>>, None, pre, app, via, FALSE) : d1 \in MdDocsOf(1), pre \in Shared("p1"), app \in Shared("a1"), via \in {"cli", "fm"}}
            \cup {Run(<<d1>>, None, pre, app, "cli", FALSE) : d1 \in CramDocsOf(1), pre \in CramShared("p1"), app \in CramShared("a1")}
            \cup {Run(<<d1, d2>>, None, <<>>, <<>>, "cli", FALSE) : d1 \in DocsOf(1), d2 \in DocsOf(2)}
            \cup {Run(<<d1, Md(MkTests(2, <<n2>>))>>, None, pre, app, via, FALSE) :
@@ -110,11 +111,22 @@ ScenC20 == {Run(<<d1>>, None, pre, app, via, FALSE) : d1 \in MdDocsOf(1), pre \i
            \cup {Run(<<Md(MkTests(1, <<n1>>))>>, None, <<>>, <<>>, "cli", TRUE) : n1 \in {"pass", "failout"}}
 
 \* prepended / appended test cases together with a test case that runs into its limit (results must stay aligned)
-SharedAndTimeout ==
+SharedAndTimeout(u) ==
     {Run(<<Doc("md", tfm, None, "no", <<Kind(n1, "d1t1"), Tc("d1t2", "exit", 0, 3, None, "none", "stdout", "none", t, FALSE, None), Kind("pass", "d1t3")>>)>>,
          None, pre, app, via, FALSE) :
         n1 \in {"pass", "failcode", "failout"}, tfm \in {None}, t \in {1},
         pre \in {<<Kind("pass", "p1")>>, <<Kind("failout", "p1")>>}, app \in {<<>>, <<Kind("pass", "a1")>>}, via \in {"cli", "fm"}}
+\* shared documents without any timeout: results and outputs must stay aligned in the branch for completed documents too
+SharedPlain(u) ==
+    {Run(<<Doc("md", None, None, "no", <<Kind(n1, "d1t1"), Kind(n2, "d1t2")>>)>>, None, pre, app, via, FALSE) :
+        n1 \in {"pass", "failcode", "failout"}, n2 \in {"pass", "failcode", "pass3"},
+        pre \in {<<>>, <<Kind("pass", "p1")>>}, app \in {<<>>, <<Kind("failcode", "a1")>>, <<Kind("pass", "a1")>>}, via \in {"cli", "fm"}}
+\* the command line limit together with shared documents given on the command line
+LimitAndShared(u) ==
+    {Run(<<Doc("md", tfm, None, "no", C14Tests(p, None))>>, tcli, pre, app, "cli", FALSE) :
+        p \in {1, 3}, tfm \in {None, 1}, tcli \in {0, 1},
+        pre \in {<<>>, <<Kind("pass", "p1")>>}, app \in {<<>>, <<Kind("pass", "a1")>>}} \ 
+    {Run(<<Doc("md", tfm, None, "no", C14Tests(p, None))>>, tcli, <<>>, <<>>, "cli", FALSE) : p \in {1, 3}, tfm \in {None, 1}, tcli \in {0, 1}}
 \* a detached test case (no result of its own) before a test case that cuts the document short: results must stay aligned
 CutTc(x, id) == CASE x = "slow" -> Tc(id, "exit", 0, 3, None, "none", "stdout", "none", 1, FALSE, None)
                   [] OTHER -> Kind(x, id)
@@ -122,9 +134,9 @@ DetachedAndCut(cuts) ==
     {Run(<<Doc("md", None, None, "no", tests)>>, None, <<>>, <<>>, "cli", FALSE) :
         tests \in UNION {{<<Kind("det", "d1t1"), CutTc(x, "d1t2"), Kind("pass", "d1t3")>>,
                           <<Kind(n1, "d1t1"), Kind("det", "d1t2"), CutTc(x, "d1t3")>>} : x \in cuts, n1 \in {"pass", "failout"}}}
-Scenarios == CASE Focus = "C05" -> ScenC05 \cup SharedAndTimeout \cup DetachedAndCut({"slow", "sig_noexp", "failcode"})
-               [] Focus = "C14" -> ScenC14 \cup DetachedAndCut({"slow"}) [] Focus = "C15" -> ScenC15 \cup DetachedAndCut({"skip80"}) \cup C15Compat
-               [] Focus = "C20" -> ScenC20 \cup SharedAndTimeout \cup DetachedAndCut({"slow", "sig_noexp", "skip80", "failout"})
+Scenarios == CASE Focus = "C05" -> ScenC05(0) \cup SharedAndTimeout(0) \cup DetachedAndCut({"slow", "sig_noexp", "failcode"}) \cup SharedPlain(0)
+               [] Focus = "C14" -> ScenC14(0) \cup DetachedAndCut({"slow"}) \cup LimitAndShared(0) [] Focus = "C15" -> ScenC15(0) \cup DetachedAndCut({"skip80"}) \cup C15Compat(0)
+               [] Focus = "C20" -> ScenC20(0) \cup SharedAndTimeout(0) \cup DetachedAndCut({"slow", "sig_noexp", "skip80", "failout"})
 
 Init == /\ sc \in Scenarios
         /\ d = 1 /\ k = 1 /\ clock = 0 /\ lim = None /\ isGlobal = FALSE /\ status = "-"
